@@ -2,7 +2,9 @@
 //
 //	REQ stack <mws> <message> <script>     OBS <result> calls=<per call> after=<message afterwards>
 //	REQ delay <init>:<max>:<num>:<den> <pre> <seq>    OBS <delay metadata after each call>
-//	REQ throttle <n> <count> <duration ns> <callers>  OBS starts=<n> spaced=<1|0>
+//	REQ stackn <mws> <message> <script>    the same, executed with GODEBUG=panicnil=1 (recover() returns nil for panic(nil))
+//	REQ throttle <n> <count> <duration ns> <callers> <ctx>  OBS starts=<n> spaced=<1|0>
+//	    ctx: live | cancelled (every message arrives with a cancelled context) | timeout (Timeout(period/8) outside the Throttle)
 //
 // mws    : "-" or comma separated, outermost first: T (Timeout 1h) T0 (Timeout 0) C (CorrelationID) R (Recoverer)
 //
@@ -486,7 +488,7 @@ func setDelayPre(md message.Metadata, pre string) error {
 
 func runStack(req string) string {
 	f := strings.Fields(req)
-	if len(f) != 4 || f[0] != "stack" {
+	if len(f) != 4 || (f[0] != "stack" && f[0] != "stackn") {
 		return "bad-request"
 	}
 	env := &caseEnv{errSpecs: map[error]string{}}
@@ -692,9 +694,10 @@ func runDelay(req string) string {
 
 func runThrottle(req string) string {
 	f := strings.Fields(req)
-	if len(f) != 5 || f[0] != "throttle" {
+	if len(f) != 6 || f[0] != "throttle" || (f[5] != "live" && f[5] != "cancelled" && f[5] != "timeout") {
 		return "bad-request"
 	}
+	ctxKind := f[5]
 	n, e1 := strconv.Atoi(f[1])
 	count, e2 := strconv.ParseInt(f[2], 10, 64)
 	dur, e3 := strconv.ParseInt(f[3], 10, 64)
@@ -722,6 +725,15 @@ func runThrottle(req string) string {
 		mu.Unlock()
 		return nil, nil
 	})
+	if ctxKind == "timeout" {
+		// Timeout outside the Throttle, much shorter than the period: the context expires while the message waits
+		// for its tick – it still has to wait for it
+		d := period / 8
+		if d < time.Microsecond {
+			d = time.Microsecond
+		}
+		h = middleware.Timeout(d)(h)
+	}
 	var wg sync.WaitGroup
 	for c := 0; c < callers; c++ {
 		k := n / callers
@@ -731,8 +743,13 @@ func runThrottle(req string) string {
 		wg.Add(1)
 		go func() {
 			defer wg.Done()
-			msg := message.NewMessage("in", nil)
 			for i := 0; i < k; i++ {
+				msg := message.NewMessage("in", nil)
+				if ctxKind == "cancelled" {
+					cctx, cancel := context.WithCancel(context.Background())
+					cancel()
+					msg.SetContext(cctx)
+				}
 				h(msg)
 			}
 		}()
@@ -745,8 +762,44 @@ func runThrottle(req string) string {
 	return "starts=" + strconv.Itoa(starts) + " spaced=" + b01(last.Sub(t0) >= bound)
 }
 
+// withPanicNil runs f with GODEBUG=panicnil=1 (the setting of programs whose go.mod says go < 1.21): recover() then
+// returns nil for panic(nil).  The runtime re-reads GODEBUG when the variable changes; the setting is process wide,
+// so nothing else may run meanwhile.
+func withPanicNil(f func()) {
+	old, had := os.LookupEnv("GODEBUG")
+	v := "panicnil=1"
+	if had && old != "" {
+		v = old + ",panicnil=1"
+	}
+	os.Setenv("GODEBUG", v)
+	defer func() {
+		if had {
+			os.Setenv("GODEBUG", old)
+		} else {
+			os.Unsetenv("GODEBUG")
+		}
+	}()
+	f()
+}
+
+// panicNilActive reports whether recover() really returns nil for panic(nil) right now.
+func panicNilActive() (nilSeen bool) {
+	defer func() { nilSeen = recover() == nil }()
+	panic(nil)
+}
+
 func runReq(req string) string {
 	switch {
+	case strings.HasPrefix(req, "stackn "):
+		res := ""
+		withPanicNil(func() {
+			if !panicNilActive() {
+				res = "bad-request"
+				return
+			}
+			res = runStack(req)
+		})
+		return res
 	case strings.HasPrefix(req, "stack "):
 		return runStack(req)
 	case strings.HasPrefix(req, "delay "):
@@ -779,8 +832,8 @@ func main() {
 		go func() {
 			defer wg.Done()
 			for i := range idx {
-				if strings.HasPrefix(reqs[i], "throttle ") {
-					continue // timing cases run alone, afterwards
+				if strings.HasPrefix(reqs[i], "throttle ") || strings.HasPrefix(reqs[i], "stackn ") {
+					continue // timing cases run alone, afterwards; panicnil cases in their own phase
 				}
 				obs[i] = runReq(reqs[i])
 			}
@@ -791,6 +844,32 @@ func main() {
 	}
 	close(idx)
 	wg.Wait()
+	// second phase: the cases that run under GODEBUG=panicnil=1 (process-wide setting), in parallel among themselves
+	withPanicNil(func() {
+		active := panicNilActive()
+		var wg2 sync.WaitGroup
+		idx2 := make(chan int, 1024)
+		for w := 0; w < workers; w++ {
+			wg2.Add(1)
+			go func() {
+				defer wg2.Done()
+				for i := range idx2 {
+					if !active {
+						obs[i] = "bad-request"
+						continue
+					}
+					obs[i] = runStack(reqs[i])
+				}
+			}()
+		}
+		for i := range reqs {
+			if strings.HasPrefix(reqs[i], "stackn ") {
+				idx2 <- i
+			}
+		}
+		close(idx2)
+		wg2.Wait()
+	})
 	for i := range reqs {
 		if strings.HasPrefix(reqs[i], "throttle ") {
 			obs[i] = runReq(reqs[i])
